@@ -19,6 +19,16 @@ on the implementation:
                            (file order kept, so hash-map order never matters)
   correspondence (ii)    : Lean `encSnapshot dataset` -> real loader  must equal Lean `decSnapshot` of it
   corrupted files        : Lean `decSnapshot` vs real loader on mutated files (ok/err + result)
+  oracle over TCP        : the real server: commands, SAVE, stop, start on the same directory, point reads + DBSIZE of all 16 databases
+                           - datasets of every type in all databases (tcp-restart);
+                           - a few hundred keys a database (several per storage shard), a share of them past their deadline but still
+                             stored at SAVE time because nobody touched them, sweeper paused / running (tcp-expired-at-save; the same
+                             in-process: expired-before-save-many-keys);
+                           - one server life with SEVERAL saves and restarts, the dataset changing in between to a subset, to other
+                             databases, to nothing, with unsaved changes: every restart shows exactly the dataset at the last SAVE that
+                             answered OK (tcp-history; in-process: the empty dataset must produce a dump file);
+                           - thorough: a first database that takes the loader long (400 000 keys) before keys with TTLs in later
+                             databases — every deadline to clock granularity however long the load has been going on (bigfile)
 
 Time: the real code cannot be given a clock, so every comparison uses the wall-clock instants the
 driver measured (deadline, save, load); a key whose deadline is within TOL ms of the load instant
@@ -355,6 +365,89 @@ def gen_dataset(r, ttl_classes):
     return ds
 
 
+def gen_many_keys(r, dbs, per_db, short_share, short_ttl, long_ttl=100000):
+    """many small keys per database (several per storage shard: 16 shards a database), a share of them with a SHORT TTL — meant to run
+    out before the SAVE while nobody touches them, so that they are past their deadline but still stored when the snapshot is taken —
+    the others persistent or with a long TTL; all six types, mostly strings"""
+    ds = []
+    for db in dbs:
+        es = []
+        for i in range(per_db):
+            k = r.below(100)
+            t = "S" if k < 70 else "LTHZX"[k % 5]
+            dl = short_ttl + r.below(40) if r.below(100) < short_share else r.choice([None, None, None, long_ttl])
+            key = b"%c%d:%d" % (b"kvw"[i % 3], db, i) if i % 7 else r.bytes(r.range(1, 6)) + b"#%d" % i
+            es.append({"key": key, "dl": dl, "ty": t, "val": gen_value(r, t, n=r.choice([1, 2, 3]))})
+        ds.append((db, es))
+    return ds
+
+
+def entry_tokens(e):
+    """tokens of one key, without the database: `K <key> <ttl|-> <type> <value…>`"""
+    return tokens([(0, [e])]).split(" ", 2)[2]
+
+
+def gen_history(r, long_ttl=100000):
+    """one server life with SEVERAL saves and restarts, the dataset changing in between: to a subset, to other types under the same
+    names, to other databases, to nothing (FLUSHALL / FLUSHDB of every database / DEL key by key), changes that are NOT saved before
+    a restart.  Steps as understood by C09.tcp_history."""
+    steps, present = [], {}            # present: (db, key) -> True, the generator's own book-keeping
+
+    def put(ds):
+        for db, es in ds:
+            for e in es:
+                steps.append(["put", db, entry_tokens(e)])
+                present[(db, e["key"])] = True
+
+    def wipe(how):
+        if how == "flushall":
+            steps.append(["flushall"])
+        elif how == "flushdb":
+            for db in sorted(set(k[0] for k in present)):
+                steps.append(["flushdb", db])
+        else:
+            for (db, k) in sorted(present):
+                steps.append(["del", db, hx(k)])
+        present.clear()
+
+    ttls = [None, None, long_ttl]
+    hows = ["flushall", "flushdb", "del"]
+    first = r.below(3)
+    put(gen_dataset(r, ttls))
+    steps.append(["save"])
+    # to a subset, some names re-used for another type, new keys in other databases; two saves without a restart in between
+    for (db, k) in sorted(present):
+        c = r.below(4)
+        if c < 2:
+            steps.append(["del", db, hx(k)])
+            del present[(db, k)]
+        elif c == 2:
+            t = r.choice("SLTHZX")
+            steps.append(["put", db, entry_tokens({"key": k, "dl": r.choice(ttls), "ty": t, "val": gen_value(r, t)})])
+    put(gen_dataset(r, ttls))
+    steps += [["save"], ["restart", 0]]
+    # to nothing
+    wipe(hows[first])
+    steps += [["save"], ["restart", 0]]
+    # something, saved; then nothing, saved; then something that is NOT saved
+    put(gen_dataset(r, ttls))
+    steps.append(["save"])
+    wipe(hows[(first + 1) % 3])
+    steps.append(["save"])
+    put(gen_dataset(r, ttls))
+    steps.append(["restart", 0])
+    present.clear()
+    # and on from the empty dataset
+    put(gen_dataset(r, ttls))
+    steps.append(["save"])
+    if r.chance(1, 2):
+        steps.append(["restart", 0])
+    wipe(hows[(first + 2) % 3])
+    put(gen_dataset(r, ttls)[:1])
+    steps += [["save"], ["restart", 0]]
+    return steps
+
+
 def n_distinct(n, width=3):
     return [i.to_bytes(width, "big") for i in range(n)]
 
@@ -508,7 +601,7 @@ class C09:
         returns (oracle diffs not explained by a known finding, all oracle diffs)"""
         rep = self.rep
         name, ds = case["name"], case["ds"]
-        self.iask("populate " + tokens(ds))
+        self.iask(("populate " + tokens(ds)) if ds else "populate")
         _, d0 = self.dump()                        # the engine's own view, deadlines absolute (wall ms)
         c0 = canon(d0)
         gen = canon(ds)
@@ -517,6 +610,13 @@ class C09:
         if case.get("pre"):
             self.iask("sleep %d" % case["pre"])
         w = self.iask("save").split(" ")
+        if w[:2] == ["err", "no-file"]:
+            # RdbEngine::save answered Ok(()) and there is no dump: whatever was under that name before is what a restart would load
+            rep.evaluations += 1
+            dfx = (("*", b"*"), "no-dump-written", None, None)
+            if record:
+                self.oracle_failures.append((name, dfx, case, {"note": "RdbEngine::save returned Ok(()) but wrote no file"}))
+            return [dfx], [dfx]
         if w[0] != "ok":
             raise InternalError("real save failed: " + " ".join(w)[:100])
         ts0, ts1, f = int(w[1]), int(w[2]), unhx(w[3])
@@ -533,9 +633,14 @@ class C09:
         indet = set(k for k, (dl, _, _) in c0.items() if dl is not None and (tl0 - TOL <= dl <= tl1 + TOL or ts0 - TOL <= dl <= ts1 + TOL))
         self.indeterminate += len(indet)
         spec = {k: v for k, v in c0.items() if v[0] is None or v[0] > tl1}
-        lt = self.mask("live %d %s" % (tl1, tokens(d0)))
-        if canon(parse(lt.split(" "))) != spec:
-            raise InternalError("case %s: Lean `live` and the check's Spec disagree" % name)
+        if not case.get("spec_py_only"):          # (the driver's token parser is quadratic in the number of keys of a database)
+            lt = self.mask("live %d %s" % (tl1, tokens(d0)))
+            if canon(parse(lt.split(" "))) != spec:
+                raise InternalError("case %s: Lean `live` and the check's Spec disagree" % name)
+        if case.get("kind") == "bigfile":
+            self.notes["bigfile"] = {"keys": len(c0), "file_bytes": len(f), "loader_ms": tl1 - tl0, "tolerance_ms": TOL,
+                                     "discriminating(loader time >= 5 x tolerance)": tl1 - tl0 >= 5 * TOL}
+            rep.count("bigfile.loader-time-%s-5xTOL" % (">=" if tl1 - tl0 >= 5 * TOL else "<"))
         if a is None:
             diffs = [(("*", b"*"), "load-failed", None, None)]
             rm = self.lean_dec((tl0 + tl1) // 2, f)
@@ -557,10 +662,13 @@ class C09:
         types = "".join(sorted(set(e["ty"] for _, es in ds for e in es)))
         rep.count("case." + case.get("kind", "random"))
         rep.nontrivial(("rt", case.get("kind", "random"), types, len(ds), bool(case.get("down")), bool(diffs), min(len(f), 1 << 20).bit_length()))
-        for db, es in ds:
-            for e in es:
-                n = len(e["val"])
-                rep.nontrivial(("val", e["ty"], size_class(n), size_class(len(e["key"])), ttl_class(e["dl"])))
+        for cls in set((e["ty"], size_class(len(e["val"])), size_class(len(e["key"])), ttl_class(e["dl"])) for db, es in ds for e in es):
+            rep.nontrivial(("val",) + cls)
+        nkeys = sum(len(es) for _, es in ds)
+        if case.get("pre"):
+            gone = sum(1 for v in c0.values() if v[0] is not None and v[0] < ts0 - TOL)
+            rep.nontrivial(("expired-at-save", size_class(nkeys), size_class(gone)))
+            rep.count("inproc.keys-past-their-deadline-at-save(untouched): %d of %d" % (gone, nkeys))
         if not record:
             return new, diffs
         # ---- correspondence (i): the model reads the real file
@@ -662,126 +770,155 @@ class C09:
         return None
 
     # -- restart of the real server over TCP (the wiring SAVE command -> RdbEngine::save, start-up -> RdbEngine::load) ----
-    def tcp_restart(self, ds, down_ms, name):
-        """populate a real server with commands, SAVE, stop it, wait, start a new one on the same directory and read
-        everything back with point reads (TYPE/GET/LLEN+LINDEX/SCARD+SISMEMBER/HLEN+HGET/ZCARD+ZSCORE/XLEN+XRANGE id id/PTTL/DBSIZE)"""
-        import time as _t
+    def _server(self, keep_dir=None):
         import server
-        from server import Server
         if os.environ.get("VERIF_SERVER_BIN"):      # only for sanity tests against a deliberately different build
             server.SERVER_BIN = os.environ["VERIF_SERVER_BIN"]
-        rep = self.rep
+        return server.Server("c09", keep_dir=keep_dir)
 
-        def score_text(bits):
-            x = struct.unpack("<d", struct.pack("<Q", bits))[0]
-            return "inf" if x == float("inf") else "-inf" if x == float("-inf") else repr(x)
+    @staticmethod
+    def _now_ms():
+        import time as _t
+        return int(_t.time() * 1000)
 
+    def _tcp_put(self, c, e, name, fresh=True):
+        """create one key in the selected database through commands (`fresh=False`: whatever the key held is deleted first);
+        returns its deadline on this machine's wall clock as the server sees it (PTTL), None without TTL"""
         def ok(reply, what):
             if reply[0] == "e":
                 raise InternalError("tcp case %s: %s refused: %r" % (name, what, reply[1][:80]))
             return reply
 
-        srv = Server("c09")
+        def score_text(bits):
+            x = struct.unpack("<d", struct.pack("<Q", bits))[0]
+            return "inf" if x == float("inf") else "-inf" if x == float("-inf") else repr(x)
+        k, t, v = e["key"], e["ty"], e["val"]
+        if not fresh:
+            ok(c.cmd("DEL", k), "DEL")
+        if t == "S":
+            ok(c.cmd("SET", k, v), "SET")
+        elif t == "L":
+            ok(c.cmd("RPUSH", k, *v), "RPUSH")
+        elif t == "T":
+            ok(c.cmd("SADD", k, *v), "SADD")
+        elif t == "H":
+            ok(c.cmd("HSET", k, *[x for p in v for x in p]), "HSET")
+        elif t == "Z":
+            for m, b in v:
+                ok(c.cmd("ZADD", k, score_text(b), m), "ZADD")
+        elif t == "X":
+            for ms, sq, fs in v:
+                ok(c.cmd("XADD", k, "%d-%d" % (ms, sq), *[x for p in fs for x in p]), "XADD")
+            if not v:
+                ok(c.cmd("XADD", k, "1-0", "a", "b"), "XADD")
+                ok(c.cmd("XDEL", k, "1-0"), "XDEL")
+        if e["dl"] is not None:
+            ok(c.cmd("PEXPIRE", k, e["dl"]), "PEXPIRE")
+
+    def _tcp_deadline(self, c, k):
+        p = c.cmd("PTTL", k)
+        return self._now_ms() + p[1] if p[0] == "i" and p[1] >= 0 else None
+
+    def _tcp_read(self, c, ds):
+        """point reads (TYPE/GET/LLEN+LINDEX/SCARD+SISMEMBER/HLEN+HGET/ZCARD+ZSCORE/XLEN+XRANGE id id/PTTL) of every key of `ds`
+        — whose values only say which members/fields/entries to ask for — and DBSIZE of all 16 databases:
+        ({(db, key): (deadline, type, canonical value)} of the keys that exist, {db: DBSIZE})"""
+        got, sizes = {}, {}
+        listed = dict(ds)
+        for db in range(16):
+            c.cmd("SELECT", db)
+            sizes[db] = c.cmd("DBSIZE")[1]
+            for e in listed.get(db, []):
+                k, t, v = e["key"], e["ty"], e["val"]
+                ty = c.cmd("TYPE", k)[1]
+                if ty == b"none":
+                    continue
+                dl = self._tcp_deadline(c, k)
+                if ty == b"string":
+                    got[(db, k)] = (dl, "S", c.cmd("GET", k)[1])
+                elif ty == b"list":
+                    n = c.cmd("LLEN", k)[1]
+                    got[(db, k)] = (dl, "L", tuple(c.cmd("LINDEX", k, i)[1] for i in range(n)))
+                elif ty == b"set":
+                    n = c.cmd("SCARD", k)[1]
+                    ms = tuple(sorted(m for m in (v if t == "T" else []) if c.cmd("SISMEMBER", k, m)[1] == 1))
+                    got[(db, k)] = (dl, "T", ms if len(ms) == n else ms + (b"<%d unknown members>" % (n - len(ms)),))
+                elif ty == b"hash":
+                    n = c.cmd("HLEN", k)[1]
+                    fs = tuple(sorted((fl, r[1]) for fl, _ in (v if t == "H" else []) for r in [c.cmd("HGET", k, fl)] if r[0] == "b"))
+                    got[(db, k)] = (dl, "H", fs if len(fs) == n else fs + ((b"<unknown fields>", b"%d" % (n - len(fs))),))
+                elif ty == b"zset":
+                    n = c.cmd("ZCARD", k)[1]
+                    zs = []
+                    for m, b in (v if t == "Z" else []):
+                        r = c.cmd("ZSCORE", k, m)
+                        if r[0] == "b":
+                            x = float(r[1].decode())
+                            zs.append((m, b if x == struct.unpack("<d", struct.pack("<Q", b))[0] else struct.unpack("<Q", struct.pack("<d", x))[0]))
+                    zs = tuple(sorted(zs))
+                    got[(db, k)] = (dl, "Z", zs if len(zs) == n else zs + ((b"<unknown members>", n - len(zs)),))
+                elif ty == b"stream":
+                    n = c.cmd("XLEN", k)[1]
+                    xs = []
+                    cand = [(ms, sq) for ms, sq, _ in v] if t == "X" else [(1, 0)] if t == "L" else []
+                    for ms, sq in cand:
+                        r = c.cmd("XRANGE", k, "%d-%d" % (ms, sq), "%d-%d" % (ms, sq))
+                        if r[0] == "a" and len(r[1]) == 1:
+                            flat = [x[1] for x in r[1][0][1][1][1]]
+                            xs.append((ms, sq, tuple(sorted(pairs(flat)))))
+                    xs = tuple(xs)
+                    got[(db, k)] = (dl, "X", xs if len(xs) == n else xs + ((0, 0, ((b"<unknown entries>", b"%d" % (n - len(xs))),)),))
+                else:
+                    got[(db, k)] = (dl, ty.decode(), None)
+        return got, sizes
+
+    def tcp_restart(self, ds, down_ms, name, pre_ms=0, pause_sweeper=False, kind="tcp-restart", record=True):
+        """populate a real server with commands, [let `pre_ms` pass, nobody touching a key — with the expiry sweeper paused or not],
+        SAVE, stop it, wait `down_ms`, start a new one on the same directory and read everything back with point reads.
+        Returns the oracle failures not explained by a known finding."""
+        import time as _t
+        rep = self.rep
+        srv = self._server()
         keep = srv.dir
         try:
             c = srv.client()
+            if pause_sweeper and c.cmd("VERIF", "SWEEPER", "PAUSE") != ("s", b"OK"):
+                raise InternalError("VERIF SWEEPER PAUSE refused (server built without feature verif?)")
             for db, es in ds:
-                ok(c.cmd("SELECT", db), "SELECT")
+                c.cmd("SELECT", db)
                 for e in es:
-                    k, t, v = e["key"], e["ty"], e["val"]
-                    if t == "S":
-                        ok(c.cmd("SET", k, v), "SET")
-                    elif t == "L":
-                        ok(c.cmd("RPUSH", k, *v), "RPUSH")
-                    elif t == "T":
-                        ok(c.cmd("SADD", k, *v), "SADD")
-                    elif t == "H":
-                        ok(c.cmd("HSET", k, *[x for p in v for x in p]), "HSET")
-                    elif t == "Z":
-                        for m, b in v:
-                            ok(c.cmd("ZADD", k, score_text(b), m), "ZADD")
-                    elif t == "X":
-                        for ms, sq, fs in v:
-                            ok(c.cmd("XADD", k, "%d-%d" % (ms, sq), *[x for p in fs for x in p]), "XADD")
-                        if not v:
-                            ok(c.cmd("XADD", k, "1-0", "a", "b"), "XADD")
-                            ok(c.cmd("XDEL", k, "1-0"), "XDEL")
-                    if e["dl"] is not None:
-                        ok(c.cmd("PEXPIRE", k, e["dl"]), "PEXPIRE")
+                    self._tcp_put(c, e, name)
             # deadlines as the server sees them, on this machine's wall clock
             dls = {}
             for db, es in ds:
                 c.cmd("SELECT", db)
                 for e in es:
                     if e["dl"] is not None:
-                        p = c.cmd("PTTL", e["key"])
-                        dls[(db, e["key"])] = int(_t.time() * 1000) + p[1] if p[0] == "i" and p[1] >= 0 else None
-            ts0 = int(_t.time() * 1000)
-            ok(c.cmd("SAVE", timeout=30), "SAVE")
-            ts1 = int(_t.time() * 1000)
+                        dls[(db, e["key"])] = self._tcp_deadline(c, e["key"])
+            if pre_ms:
+                _t.sleep(pre_ms / 1000.0)
+            ts0 = self._now_ms()
+            if c.cmd("SAVE", timeout=60) != ("s", b"OK"):
+                raise InternalError("tcp case %s: SAVE refused" % name)
+            ts1 = self._now_ms()
             c.close()
             f = open(os.path.join(keep, "dump.rdb"), "rb").read()
             srv.stop(remove=False)
             _t.sleep(down_ms / 1000.0)
-            tl0 = int(_t.time() * 1000)
-            srv = Server("c09", keep_dir=keep)
-            tl1 = int(_t.time() * 1000)
+            tl0 = self._now_ms()
+            srv = self._server(keep_dir=keep)
+            tl1 = self._now_ms()
             c = srv.client()
-            got = {}
-            extra_keys = 0
-            for db, es in ds:
-                c.cmd("SELECT", db)
-                present = 0
-                for e in es:
-                    k, t, v = e["key"], e["ty"], e["val"]
-                    ty = c.cmd("TYPE", k)[1]
-                    if ty == b"none":
-                        continue
-                    present += 1
-                    p = c.cmd("PTTL", k)
-                    dl = int(_t.time() * 1000) + p[1] if p[0] == "i" and p[1] >= 0 else None
-                    if ty == b"string":
-                        got[(db, k)] = (dl, "S", c.cmd("GET", k)[1])
-                    elif ty == b"list":
-                        n = c.cmd("LLEN", k)[1]
-                        got[(db, k)] = (dl, "L", tuple(c.cmd("LINDEX", k, i)[1] for i in range(n)))
-                    elif ty == b"set":
-                        n = c.cmd("SCARD", k)[1]
-                        ms = tuple(sorted(m for m in (v if t == "T" else []) if c.cmd("SISMEMBER", k, m)[1] == 1))
-                        got[(db, k)] = (dl, "T", ms if len(ms) == n else ms + (b"<%d unknown members>" % (n - len(ms)),))
-                    elif ty == b"hash":
-                        n = c.cmd("HLEN", k)[1]
-                        fs = tuple(sorted((fl, r[1]) for fl, _ in (v if t == "H" else []) for r in [c.cmd("HGET", k, fl)] if r[0] == "b"))
-                        got[(db, k)] = (dl, "H", fs if len(fs) == n else fs + ((b"<unknown fields>", b"%d" % (n - len(fs))),))
-                    elif ty == b"zset":
-                        n = c.cmd("ZCARD", k)[1]
-                        zs = []
-                        for m, b in (v if t == "Z" else []):
-                            r = c.cmd("ZSCORE", k, m)
-                            if r[0] == "b":
-                                x = float(r[1].decode())
-                                zs.append((m, b if x == struct.unpack("<d", struct.pack("<Q", b))[0] else struct.unpack("<Q", struct.pack("<d", x))[0]))
-                        zs = tuple(sorted(zs))
-                        got[(db, k)] = (dl, "Z", zs if len(zs) == n else zs + ((b"<unknown members>", n - len(zs)),))
-                    elif ty == b"stream":
-                        n = c.cmd("XLEN", k)[1]
-                        xs = []
-                        cand = [(ms, sq) for ms, sq, _ in v] if t == "X" else [(1, 0)] if t == "L" else []
-                        for ms, sq in cand:
-                            r = c.cmd("XRANGE", k, "%d-%d" % (ms, sq), "%d-%d" % (ms, sq))
-                            if r[0] == "a" and len(r[1]) == 1:
-                                flat = [x[1] for x in r[1][0][1][1][1]]
-                                xs.append((ms, sq, tuple(sorted(pairs(flat)))))
-                        xs = tuple(xs)
-                        got[(db, k)] = (dl, "X", xs if len(xs) == n else xs + ((0, 0, ((b"<unknown entries>", b"%d" % (n - len(xs))),)),))
-                    else:
-                        got[(db, k)] = (dl, ty.decode(), None)
-                extra_keys += max(0, c.cmd("DBSIZE")[1] - present)
+            got, sizes = self._tcp_read(c, ds)
             c.close()
         finally:
             srv.stop(remove=True)
+        present = {}
+        for (db, _k) in got:
+            present[db] = present.get(db, 0) + 1
+        extra_keys = sum(max(0, sizes[db] - present.get(db, 0)) for db in range(16))
         rep.evaluations += 1
-        rep.count("case.tcp-restart")
+        rep.count("case." + kind)
         c0 = {}
         for (key, (dl, t, v)) in canon(ds).items():
             c0[key] = (dls.get(key) if dl is not None else None, t, v)
@@ -793,16 +930,28 @@ class C09:
         diffs = diff(got, spec, indet)
         if extra_keys and not indet:
             diffs.append((("*", b"*"), "extra-keys:%d" % extra_keys, None, None))
-        case = {"name": name, "kind": "tcp-restart", "ds": ds, "down": down_ms}
+        case = {"name": name, "kind": kind, "ds": ds, "down": down_ms,
+                "tcp": {"pre_save_wait_ms": pre_ms, "sweeper_paused": pause_sweeper, "downtime_ms": down_ms}}
+        nkeys = len(c0)
+        gone = sum(1 for k, v in c0.items() if v[0] is not None and v[0] < ts0 - TOL)
+        if pre_ms:
+            rep.count("tcp.keys-past-their-deadline-at-SAVE(untouched, sweeper %s): %d of %d" % ("paused" if pause_sweeper else "running", gone, nkeys))
         r = self.lean_dec(tl1, f)
+        new = []
         for dfx in diffs:
             m = self.classify(dfx, c0, ts0, tl1, unloadable=(r[0] == "err"))
             if m:
                 self.known_hits.setdefault(m, (case, self.show_diff(dfx)))
                 rep.count("known." + m)
             else:
-                self.oracle_failures.append((name, dfx, case, {"path": "TCP: commands, SAVE, server restart, point reads", "file": hx(f[:4000])}))
-        rep.nontrivial(("tcp", len(ds), bool(diffs), bool(down_ms)))
+                new.append(dfx)
+                if record:
+                    self.oracle_failures.append((name, dfx, case, {"path": "TCP: commands%s, SAVE, server restart, point reads" % (
+                        ", %d ms without touching a key (sweeper %s)" % (pre_ms, "paused" if pause_sweeper else "running") if pre_ms else ""),
+                        "keys": nkeys, "keys_past_deadline_at_save": gone, "file": hx(f[:4000])}))
+        rep.nontrivial(("tcp", kind, len(ds), size_class(nkeys), size_class(gone), pause_sweeper, bool(diffs), bool(down_ms)))
+        if not record:
+            return new
         # the same file through the in-process loader and through the model: all three must tell the same story
         w = self.iask("load " + hx(f)).split(" ")
         _, ads = self.dump()
@@ -813,7 +962,7 @@ class C09:
             # those have no name the point reads could ask for — compare their number with what DBSIZE showed, and the generated keys one by one
             junk = [k for k in ca if k not in c0]
             ca = {k: v for k, v in ca.items() if k in c0}
-            if len(junk) != extra_keys and set(db for db, _ in junk) <= set(db for db, _ in ds):
+            if len(junk) != extra_keys:
                 self.disagreements.append({"what": "refused dump.rdb: the restarted server holds %d keys beyond the generated ones, in-process RdbEngine::load %d" % (extra_keys, len(junk)), "file": hx(f[:2000])})
         near = indet | set(k for k, (dl, _, _) in c0.items() if dl is not None and abs(dl - now2) <= TOL + (now2 - tl0))
         dd = diff(got, ca, near)
@@ -827,6 +976,102 @@ class C09:
                 self.disagreements.append({"what": "server restart and model decSnapshot disagree on the same dump.rdb", "diff": [self.show_diff(x) for x in dd[:4]], "file": hx(f[:2000])})
         else:
             rep.count("tcp.dump-refused-by-loader-and-model")
+        return new
+
+    # -- several saves in one server life: the dump is the snapshot of the dataset at the LAST successful SAVE ------------
+    def tcp_history(self, steps, name, record=True):
+        """steps: ["put", db, "<K … tokens of one key>"] (DEL + create) | ["del", db, keyhex] | ["flushdb", db] | ["flushall"] |
+        ["save"] | ["restart", downtime ms].  The model: `state` follows the commands, `saved` is `state` at the last SAVE that answered
+        OK (nothing before the first one); every restart must show exactly `saved` — in all 16 databases, nothing more — and goes on
+        from there.  Returns the oracle failures not explained by a known finding."""
+        import time as _t
+        rep = self.rep
+        state, saved, universe = {}, {}, {}       # (db, key) -> entry (with "abs": deadline on the wall clock)
+        new, nsaves, nrestarts, shapes = [], 0, 0, []
+        srv = self._server()
+        keep = srv.dir
+        try:
+            c = srv.client()
+            cur = None
+            for i, st in enumerate(steps):
+                op = st[0]
+                if op in ("put", "del", "flushdb") and cur != st[1]:
+                    c.cmd("SELECT", st[1])
+                    cur = st[1]
+                if op == "put":
+                    e = parse(["D", str(st[1])] + st[2].split(" "))[0][1][0]
+                    self._tcp_put(c, e, name, fresh=False)
+                    e = dict(e, abs=self._tcp_deadline(c, e["key"]) if e["dl"] is not None else None)
+                    state[(st[1], e["key"])] = e
+                    universe[(st[1], e["key"])] = e
+                elif op == "del":
+                    c.cmd("DEL", unhx(st[2]))
+                    state.pop((st[1], unhx(st[2])), None)
+                elif op == "flushdb":
+                    if c.cmd("FLUSHDB")[0] == "e":
+                        raise InternalError("tcp history %s: FLUSHDB refused" % name)
+                    state = {k: v for k, v in state.items() if k[0] != st[1]}
+                elif op == "flushall":
+                    if c.cmd("FLUSHALL")[0] == "e":
+                        raise InternalError("tcp history %s: FLUSHALL refused" % name)
+                    state = {}
+                elif op == "save":
+                    if c.cmd("SAVE", timeout=60) != ("s", b"OK"):
+                        raise InternalError("tcp history %s: SAVE refused" % name)
+                    saved = dict(state)
+                    nsaves += 1
+                    shapes.append("save:%s" % ("empty" if not saved else "%ddbs" % len(set(k[0] for k in saved))))
+                elif op == "restart":
+                    c.close()
+                    srv.stop(remove=False)
+                    _t.sleep(st[1] / 1000.0)
+                    tl0 = self._now_ms()
+                    srv = self._server(keep_dir=keep)
+                    tl1 = self._now_ms()
+                    c = srv.client()
+                    cur = None
+                    by_db = {}
+                    for (db, k), e in universe.items():
+                        by_db.setdefault(db, []).append(e)
+                    got, sizes = self._tcp_read(c, sorted(by_db.items()))
+                    c.cmd("SELECT", 0)
+                    cur = 0
+                    rep.evaluations += 1
+                    nrestarts += 1
+                    want = {k: (e["abs"], e["ty"], canon_val(e["ty"], e["val"])) for k, e in saved.items()}
+                    indet = set(k for k, v in want.items() if v[0] is not None and v[0] <= tl1 + TOL)
+                    indet |= set(k for k, e in saved.items() if e["dl"] is not None and e["abs"] is None)
+                    self.indeterminate += len(indet)
+                    diffs = diff(got, want, indet)
+                    for db in range(16):
+                        n_want = sum(1 for k in want if k[0] == db)
+                        if sizes[db] != n_want and not any(k[0] == db for k in indet):
+                            diffs.append(((db, b"*"), "dbsize:%d-instead-of-%d" % (sizes[db], n_want), None, None))
+                    case = {"name": name, "kind": "tcp-history", "down": st[1], "history": steps[:i + 1],
+                            "ds": [(db, [e for (d2, _k), e in sorted(saved.items()) if d2 == db]) for db in sorted(set(k[0] for k in saved))]}
+                    shapes.append("restart:%s" % ("differs" if diffs else "equal"))
+                    for dfx in diffs:
+                        m = self.classify(dfx, want, tl0, tl1)
+                        if m:
+                            self.known_hits.setdefault(m, (case, self.show_diff(dfx)))
+                            rep.count("known." + m)
+                        else:
+                            new.append(dfx)
+                            if record:
+                                self.oracle_failures.append((name, dfx, case, {
+                                    "path": "TCP: restart no. %d of a server life with %d saves so far; prescribed: exactly the dataset at the last SAVE that answered OK" % (nrestarts, nsaves)}))
+                    # the restarted server goes on from what it loaded; the model from what it had to load
+                    state = dict(saved)
+                else:
+                    raise InternalError("tcp history %s: unknown step %r" % (name, st))
+            c.close()
+        finally:
+            srv.stop(remove=True)
+        rep.count("case.tcp-history")
+        rep.count("tcp-history.saves", nsaves)
+        rep.count("tcp-history.restarts", nrestarts)
+        rep.nontrivial(("tcp-history", tuple(shapes)))
+        return new
 
     # -- corrupted files: model loader vs real loader ---------------------------
     def run_file(self, name, f, kind):
@@ -896,6 +1141,10 @@ class C09:
             E(b"keep%d" % j, "L", v, LONG) for j, v in enumerate(ESCAPE_HEADED[:4])] + [E(b"x", "X", [(1, 0, [(b"f", b"v")])], 150), E(b"s", "S", b"v")]) for i in (0, 9)]})
         cases.append({"name": "empty-stream", "kind": "emptystream", "ds": [(3, [E(b"s", "X", []), E(b"t", "X", [(7, 7, [(b"f", b"v")])])])]})
         cases.append({"name": "expired-before-save", "kind": "ttl", "pre": 150, "bytes": False, "ds": [(2, [E(b"gone", "S", b"v", 40), E(b"gonel", "L", [b"a"], 40), E(b"stay", "S", b"w", LONG), E(b"plain", "H", [(b"f", b"v")])])]})
+        # keys past their deadline but still stored when the snapshot is taken (nobody touched them; an engine on its own has no sweeper),
+        # among many live keys: several per storage shard in three databases
+        cases.append({"name": "expired-before-save-many-keys", "kind": "ttl", "pre": 320, "bytes": False, "ds": gen_many_keys(r, [0, 6, 15], 160, 25, 120)})
+        cases.append({"name": "empty-dataset", "kind": "empty", "ds": []})
         cases.append({"name": "ttl-survives-downtime", "kind": "ttl", "down": 300, "ds": [(1, [E(b"a", "S", b"v", LONG), E(b"b", "Z", [(b"m", 0)], 2000), E(b"c", "X", [(1, 1, [(b"f", b"v")])], 5000), E(b"d", "L", [b""], 86400000)])]})
         cases.append({"name": "all-16-dbs", "kind": "dbs", "ds": [(i, [E(b"k%d" % i, "SLTHZX"[i % 6], gen_value(r, "SLTHZX"[i % 6]), LONG if i % 3 == 0 else None), E(b"same", "S", b"db%d" % i)]) for i in range(16)]})
         cases.append({"name": "scores", "kind": "scores", "ds": [(0, [E(b"z", "Z", [(b"m%d" % i, b) for i, b in enumerate(SCORES)]), E(b"z1", "Z", [(b"", 0x8000000000000000)])])]})
@@ -970,6 +1219,25 @@ class C09:
         self.tcp_restart(rds, 450, "tcp-restart-reserved-heads")
         for i in range(0 if tier == "quick" else 12):
             self.tcp_restart(gen_dataset(tr, [None, LONG, 140, 200]), 420, "tcp-restart-random-%d" % i)
+        # keys whose deadline passes shortly BEFORE the SAVE and which nobody touches, among a few hundred live keys per database:
+        # with the sweeper paused they are certainly still stored when the snapshot is taken; with the sweeper running some may be
+        xr = r.fork("tcp-expired-at-save")
+        for i in range(1 if tier == "quick" else 4):
+            for paused in (True, False):
+                dbs = sorted(set([0, xr.range(1, 14), 15])) if i % 2 == 0 else [xr.below(16)]
+                self.tcp_restart(gen_many_keys(xr, dbs, 240 if tier == "quick" else xr.choice([200, 400]), xr.choice([15, 25, 40]), 600), 0,
+                                 "tcp-expired-at-save-%d-%s" % (i, "paused" if paused else "sweeping"), pre_ms=820, pause_sweeper=paused, kind="tcp-expired-at-save")
+        # several saves in one server life, the dataset changing in between (to a subset, to other databases, to nothing)
+        hr = r.fork("tcp-history")
+        for i in range(1 if tier == "quick" else 8):
+            self.tcp_history(gen_history(hr), "tcp-history-%d" % i)
+        if tier == "thorough":
+            # a first database that takes the loader long to read, keys with a TTL after it (later in db 0's file order is not controllable,
+            # later databases are): every deadline must come back to clock granularity however long the load has been going on
+            br = r.fork("bigfile")
+            late = lambda db: [{"key": b"ttl-%s" % t.encode(), "dl": 600000 + 1000 * j, "ty": t, "val": gen_value(br, t, n=2)} for j, t in enumerate("SLTHZX")]
+            big = [(0, [{"key": b"%06x" % i, "dl": None, "ty": "S", "val": b"v"} for i in range(400000)]), (1, late(1)), (9, late(9)), (15, late(15))]
+            self.run_case({"name": "big-first-db-ttl-keys-late", "kind": "bigfile", "lean": False, "bytes": False, "spec_py_only": True, "ds": big})
         # loader inputs the writer never produces
         for name, f in handmade(self.facts["version"]):
             self.run_file(name, f, "handmade")
@@ -1039,7 +1307,7 @@ def shrink_case(c, chk, case):
             return False
         return bool(new)
 
-    budget = 12 if case.get("down") or case.get("pre") else 60
+    budget = 12 if case.get("down") or case.get("pre") or len(flat) > 5000 else 60
     items = shrink_list(flat, fails, max_steps=budget)
     # then shrink inside the collections
     for idx in range(len(items)):
@@ -1054,6 +1322,49 @@ def shrink_case(c, chk, case):
     return build(items)
 
 
+def shrink_tcp(chk, case, budget=8):
+    """fewer keys on which the TCP restart (same waiting time, same sweeper setting) still fails; hash-map order is random per server
+    run, so a sub-dataset that happens to pass is simply not taken"""
+    flat = [(db, e) for db, es in case["ds"] for e in es]
+    tcp = case.get("tcp", {})
+
+    def build(items):
+        ds = []
+        for db, e in items:
+            if not ds or ds[-1][0] != db:
+                ds.append((db, []))
+            ds[-1][1].append(e)
+        return ds
+
+    def fails(items):
+        try:
+            return bool(chk.tcp_restart(build(items), case.get("down", 0), "shrink", pre_ms=tcp.get("pre_save_wait_ms", 0),
+                                        pause_sweeper=tcp.get("sweeper_paused", False), kind=case["kind"], record=False))
+        except InternalError:
+            return False
+    return dict(case, ds=build(shrink_list(flat, fails, max_steps=budget)))
+
+
+def shrink_history(chk, case, budget=14):
+    """fewer steps after which a restart still shows something else than the last saved dataset"""
+    def fails(steps):
+        try:
+            return bool(chk.tcp_history(steps, "shrink", record=False))
+        except InternalError:
+            return False
+    steps = shrink_list(case["history"], fails, max_steps=budget)
+    return dict(case, history=steps)
+
+
+def ensure_server():
+    if os.environ.get("VERIF_SERVER_BIN"):
+        pass          # sanity test against a separately built server: never build into the shared cache from another source tree
+    elif os.path.realpath(REPO) != "/repo" and not os.environ.get("VERIF_CACHE"):
+        raise InternalError("FERROUS_REPO is overridden: set VERIF_CACHE too (isolated run) or VERIF_SERVER_BIN to a server built elsewhere (the shared cache is for /repo only)")
+    else:
+        build_server()
+
+
 def main(tier, seed):
     rep = Report("C09", tier, seed)
     rep.rule = ("datasets (all six types, binary keys/values incl. the marker and the escape string — as keys, members, and as the FIRST element of lists in every database, "
@@ -1062,7 +1373,12 @@ def main(tier, seed):
                 "put into a real StorageEngine, saved by the real RdbEngine, loaded into a fresh engine after a measured downtime and dumped through the "
                 "engine getters (oracle: equals live(t_load, dataset)); the same file is decoded by the Lean model, re-encoded by the Lean model (byte "
                 "equality with the real file), and the Lean encoder's file is loaded by the real loader; mutated and hand-made files compare the model "
-                "loader with the real loader. distinct = (direction/kind, types, size class of value and key, TTL class, outcome) tuples reached")
+                "loader with the real loader. Over TCP against the real server (commands, SAVE, restart on the same directory, point reads, DBSIZE of all 16 databases): "
+                "datasets of every type in every database; hundreds of keys a database of which a share is past its deadline but still stored at SAVE time "
+                "(untouched, sweeper paused and running); server lives with several saves and restarts and the dataset changing in between (subset, other databases, "
+                "emptied by FLUSHALL/FLUSHDB/DEL, unsaved changes) where every restart must show exactly the last saved dataset; thorough: a 400 000-key first database "
+                "before TTL keys in later databases (deadlines independent of the load time). "
+                "distinct = (direction/kind, types, size class of value and key, TTL class, outcome) tuples reached")
     rep.assumptions = [
         "time is modelled in integer milliseconds on one clock; Instant/SystemTime agree up to TOL=%d ms during a case (keys with a deadline that close to the save/load instant are counted as indeterminate, not judged)" % TOL,
         "hash-map iteration order is not modelled: results are compared as canonical (sorted) datasets; the byte-level comparison re-encodes in the real file's own order",
@@ -1076,12 +1392,7 @@ def main(tier, seed):
     rep.extra["source_facts"] = facts
     ok, log, errs = proof_phase(rep, families=[FAMILY])
     build_harness(FAMILY)
-    if os.environ.get("VERIF_SERVER_BIN"):
-        pass          # sanity test against a separately built server: never build into the shared cache from another source tree
-    elif os.path.realpath(REPO) != "/repo" and not os.environ.get("VERIF_CACHE"):
-        raise InternalError("FERROUS_REPO is overridden: set VERIF_CACHE too (isolated run) or VERIF_SERVER_BIN to a server built elsewhere (the shared cache is for /repo only)")
-    else:
-        build_server()
+    ensure_server()
     c = C09(rep, facts)
     try:
         c.run(seed, tier)
@@ -1111,17 +1422,48 @@ def main(tier, seed):
         if facts["marker_sites"] < 2:
             c.disagreements.append({"what": "stream marker literal %r not found at both the writer and the loader site of rdb.rs" % MARKER.decode()})
         if c.oracle_failures:
-            name, dfx, case, info = min(c.oracle_failures, key=lambda x: len(tokens(x[2]["ds"])))
-            small = shrink_case(c, c, case) if case.get("kind") != "tcp-restart" else case
-            new, diffs = c.run_case(small, record=False)
-            if not new:
+            name, dfx, case, info = min(c.oracle_failures, key=lambda x: len(x[2].get("history", ())) * 40 + sum(len(es) for _, es in x[2]["ds"]))
+            kind = case.get("kind", "")
+            if kind == "tcp-history":
+                small = shrink_history(c, case)
+                new = c.tcp_history(small["history"], "shrunk", record=False)
+                if not new:
+                    small, new = case, [dfx]
+            elif kind == "tcp-expired-at-save":
+                small = shrink_tcp(c, case)
+                for _ in range(3):
+                    new = c.tcp_restart(small["ds"], small.get("down", 0), "shrunk", pre_ms=case["tcp"]["pre_save_wait_ms"], pause_sweeper=case["tcp"]["sweeper_paused"], kind=kind, record=False)
+                    if new:
+                        break
+                if not new:
+                    small, new = case, [dfx]
+            elif kind.startswith("tcp"):
                 small, new = case, [dfx]
+            else:
+                small = shrink_case(c, c, case)
+                for _ in range(3):          # (which keys a hash-map order dependent failure hits changes from run to run)
+                    new, diffs = c.run_case(small, record=False)
+                    if new:
+                        break
+                if not new:
+                    small, new = case, [dfx]
+            k0 = new[0][1]
             what = ("C09 restart oracle fails: the file written by SAVE is refused by the loader (nothing or only a part of the dataset is restored)"
-                    if new[0][1] == "load-failed" else
+                    if k0 == "load-failed" else
+                    "C09 restart oracle fails: SAVE reported success but wrote no dump file (a restart loads whatever an earlier save left under that name)"
+                    if k0 == "no-dump-written" else
+                    "C09 restart oracle fails: after SAVE + restart db %s holds another number of keys than the saved dataset (%s)" % (new[0][0][0], k0)
+                    if k0.startswith(("dbsize", "extra-keys")) else
                     "C09 restart oracle fails: after SAVE + restart db %s key %s is %s, prescribed %s (%s)" % (
-                        new[0][0][0], short(new[0][0][1]), describe(new[0][2]), describe(new[0][3]), new[0][1]))
+                        new[0][0][0], short(new[0][0][1]), describe(new[0][2]), describe(new[0][3]), k0))
+            if kind == "tcp-history":
+                what += " — server life with several saves: " + " ".join(st[0] if st[0] not in ("put", "del") else st[0] + ":%d" % st[1] for st in small["history"])[:400]
+            elif kind == "tcp-expired-at-save":
+                what += " — %d keys, some past their deadline at SAVE time (untouched for %d ms, sweeper %s)" % (
+                    sum(len(es) for _, es in small["ds"]), case["tcp"]["pre_save_wait_ms"], "paused" if case["tcp"]["sweeper_paused"] else "running")
             rep.violation(what,
                           {"replay": {"dataset": tokens(small["ds"]), "pre_save_sleep_ms": small.get("pre", 0), "downtime_ms": small.get("down", 0),
+                                      "tcp": small.get("tcp"), "history": small.get("history"), "kind": kind,
                                       "diffs": [c.show_diff(x) for x in new[:6]], "case": name, "info": info},
                            "family": FAMILY, "others": [{"case": n, "diff": c.show_diff(d)} for n, d, _, _ in c.oracle_failures[:6]], "lean_errors": errs[:5]})
         elif not ok:
@@ -1149,10 +1491,22 @@ def replay(path):
     facts = source_facts()
     build_harness(FAMILY)
     build_driver(FAMILY)
+    if rp.get("history") or rp.get("tcp"):
+        ensure_server()
     c = C09(rep, facts)
     try:
-        case = {"name": "replay", "kind": "replay", "ds": parse(rp["dataset"].split(" ")), "pre": rp.get("pre_save_sleep_ms", 0), "down": rp.get("downtime_ms", 0)}
-        new, diffs = c.run_case(case, record=False)
+        ds = parse(rp["dataset"].split(" "))
+        if rp.get("history"):
+            new = diffs = c.tcp_history(rp["history"], "replay", record=False)
+            print("server life: " + json.dumps(rp["history"])[:600])
+        elif rp.get("tcp"):
+            new = diffs = c.tcp_restart(ds, rp["tcp"].get("downtime_ms", 0), "replay", pre_ms=rp["tcp"].get("pre_save_wait_ms", 0),
+                                        pause_sweeper=rp["tcp"].get("sweeper_paused", False), kind=rp.get("kind") or "tcp-restart", record=False)
+        else:
+            case = {"name": "replay", "kind": "replay", "ds": ds, "pre": rp.get("pre_save_sleep_ms", 0), "down": rp.get("downtime_ms", 0)}
+            if sum(len(es) for _, es in ds) > 5000:
+                case.update({"lean": False, "bytes": False, "spec_py_only": True})
+            new, diffs = c.run_case(case, record=False)
     finally:
         c.close()
     print("dataset: " + rp["dataset"][:600])
